@@ -107,12 +107,43 @@ class Inliner:
                     # Cls._h(x, ..): a static helper, or an instance helper with the receiver
                     # passed explicitly -- either way all parameters are bound positionally
                     return h, False
+        if isinstance(f, ast.Attribute) and _is_private(f.attr) and _simple_arg(f.value) and \
+                not isinstance(f.value, ast.Constant) and not (isinstance(f.value, ast.Name) and f.value.id == 'self'):
+            # obj._h(..): a private method name that exactly one class of the package defines -- whatever
+            # the class of obj, this is the function that runs (or the call fails)
+            hs = self._unique_private().get(f.attr)
+            if hs is not None and self._has_self(hs):
+                call._recv = f.value
+                return hs, True
         if isinstance(f, ast.Name):
             r = self.repo.resolve_name(fi.module, f.id)
             if r is not None and hasattr(r, 'params') and r.cls is None and \
                     (_is_private(f.id) or self._guard_only(r)):
                 return r, False
         return None
+
+    def _unique_private(self):
+        if not hasattr(self, '_uniq'):
+            seen = {}
+            for m in self.repo.modules.values():
+                for c in m.classes.values():
+                    for name, h in c.methods.items():
+                        if _is_private(name):
+                            seen.setdefault(name, []).append(h)
+                    for name in c.class_attrs:
+                        if _is_private(name):
+                            seen.setdefault(name, []).append(None)
+                for name in m.functions:
+                    if _is_private(name):
+                        seen.setdefault(name, []).append(None)
+            # an instance attribute of the same name anywhere would shadow the method
+            stored = set()
+            for m in self.repo.modules.values():
+                for n in ast.walk(m.tree):
+                    if isinstance(n, ast.Attribute) and isinstance(n.ctx, (ast.Store, ast.Del)):
+                        stored.add(n.attr)
+            self._uniq = {k: v[0] for k, v in seen.items() if len(v) == 1 and v[0] is not None and k not in stored}
+        return self._uniq
 
     @staticmethod
     def _guard_only(h):
@@ -186,6 +217,11 @@ class Inliner:
         if va is not None:
             params.append(va.arg)
         mapping, direct, prelude = {}, {}, []
+        recv = getattr(call, '_recv', None)
+        if recv is not None:
+            if 'self' in assigned:
+                return None
+            direct['self'] = recv
         for p in params:
             arg = env.get(p)
             if arg is None:
@@ -405,7 +441,10 @@ class _ExprInline(ast.NodeTransformer):
         expr = copy.deepcopy(_body(h.raw_node)[0].value)
         # parameters used more than once with a non-simple argument would duplicate evaluation; the
         # analyses only read the structure, so this is acceptable for analysis purposes
-        rn = _Rename({}, {k: v for k, v in env.items()})
+        direct = {k: v for k, v in env.items()}
+        if getattr(node, '_recv', None) is not None:
+            direct['self'] = node._recv
+        rn = _Rename({}, direct)
         out = rn.visit(expr)
         self.changed[0] = True
         self.inl._note(h, True)
@@ -431,6 +470,21 @@ class _Fake2:
 
 
 # ----------------------------------------------------------------------------- desugaring
+def _pure_expr(e):
+    """comparisons / arithmetic over attribute paths and constants: evaluating it twice gives the same value"""
+    if isinstance(e, (ast.Constant, ast.Name)):
+        return True
+    if isinstance(e, ast.Attribute):
+        return _pure_expr(e.value)
+    if isinstance(e, ast.Compare):
+        return _pure_expr(e.left) and all(_pure_expr(c) for c in e.comparators)
+    if isinstance(e, ast.BinOp):
+        return _pure_expr(e.left) and _pure_expr(e.right)
+    if isinstance(e, ast.UnaryOp):
+        return _pure_expr(e.operand)
+    return False
+
+
 class _SubstName(ast.NodeTransformer):
     def __init__(self, name, value):
         self.name = name
@@ -467,6 +521,9 @@ class Desugar(ast.NodeTransformer):
                     stores[n.id] = stores.get(n.id, 0) + 1
             if isinstance(n, ast.For) and isinstance(n.iter, ast.Name):
                 iters[n.iter.id] = iters.get(n.iter.id, 0) + 1
+            if isinstance(n, ast.Call) and isinstance(n.func, ast.Attribute) and n.func.attr == 'extend' and \
+                    len(n.args) == 1 and isinstance(n.args[0], ast.Name) and not n.keywords:
+                iters[n.args[0].id] = iters.get(n.args[0].id, 0) + 1
         args = {a.arg for a in fn.args.args + fn.args.kwonlyargs + fn.args.posonlyargs}
         self.local_seqs = {}
         for n in ast.walk(fn):
@@ -475,6 +532,7 @@ class Desugar(ast.NodeTransformer):
                 k = n.targets[0].id
                 if stores.get(k) == 1 and k not in args and loads.get(k, 0) == iters.get(k, 0) and \
                         all(isinstance(e, ast.Constant) or
+                            (isinstance(e, ast.Name) and stores.get(e.id, 0) == 1 and e.id not in args) or
                             (isinstance(e, (ast.Tuple, ast.List)) and all(isinstance(c, ast.Constant) for c in e.elts))
                             for e in n.value.elts):
                     self.local_seqs[k] = n.value
@@ -563,7 +621,7 @@ class Desugar(ast.NodeTransformer):
         if isinstance(node.target, ast.Tuple) and isinstance(it, (ast.Tuple, ast.List)) and it.elts and \
                 len(it.elts) <= 12 and not node.orelse and all(isinstance(t, ast.Name) for t in node.target.elts) and \
                 all(isinstance(e, (ast.Tuple, ast.List)) and len(e.elts) == len(node.target.elts) and
-                    all(isinstance(c, (ast.Constant, ast.Name)) or
+                    all(isinstance(c, (ast.Constant, ast.Name)) or _pure_expr(c) or
                         (isinstance(c, (ast.List, ast.Dict, ast.Tuple)) and not ast.unparse(c).strip('[]{}()') and
                          sum(1 for s in node.body for x in ast.walk(s)
                              if isinstance(x, ast.Name) and x.id == t.id) <= 1)
@@ -573,8 +631,10 @@ class Desugar(ast.NodeTransformer):
                         {t.id for t in node.target.elts}
                         for s in node.body for x in ast.walk(s)) and \
                 not any(isinstance(x, (ast.Break, ast.Continue)) for s in node.body for x in ast.walk(s)) and \
-                any(isinstance(x, ast.Call) and isinstance(x.func, ast.Name) and x.func.id in ('setattr', 'getattr')
-                    for s in node.body for x in ast.walk(s)):
+                (any(isinstance(x, ast.Call) and isinstance(x.func, ast.Name) and x.func.id in ('setattr', 'getattr')
+                     for s in node.body for x in ast.walk(s)) or
+                 (len(it.elts) <= 4 and sum(1 for s in node.body for _x in ast.walk(s)
+                                            if isinstance(_x, ast.stmt)) <= 8)):
             out = []
             for e in it.elts:
                 for s in node.body:
@@ -608,6 +668,20 @@ class Desugar(ast.NodeTransformer):
         self.generic_visit(node)
         return node
 
+    def visit_IfExp(self, node):
+        self.generic_visit(node)
+        if isinstance(node.test, ast.Constant) and isinstance(node.test.value, bool):
+            self.changed = True
+            return node.body if node.test.value else node.orelse
+        return node
+
+    def visit_If(self, node):
+        self.generic_visit(node)
+        if isinstance(node.test, ast.Constant) and isinstance(node.test.value, bool):
+            self.changed = True
+            return (node.body if node.test.value else node.orelse) or [ast.copy_location(ast.Pass(), node)]
+        return node
+
     def visit_Assign(self, node):
         self.generic_visit(node)
         # (a, b, c) = ([] for _ in range(3))   /  a, b = [[] for _ in range(2)]  ->  one assignment each
@@ -638,7 +712,7 @@ class Desugar(ast.NodeTransformer):
             elif isinstance(recv, ast.Call) and isinstance(recv.func, ast.Name) and recv.func.id == 'vars' and \
                     len(recv.args) == 1 and not recv.keywords:
                 obj = recv.args[0]
-            if isinstance(obj, ast.Name):
+            if obj is not None and _simple_arg(obj) and not isinstance(obj, ast.Constant):
                 self.changed = True
                 return [ast.copy_location(ast.Assign(
                     targets=[ast.Attribute(value=copy.deepcopy(obj), attr=k.arg, ctx=ast.Store())], value=k.value), node)
@@ -653,6 +727,13 @@ class Desugar(ast.NodeTransformer):
 
     def visit_Call(self, node):
         self.generic_visit(node)
+        # lst.extend(halves) with  halves = [a, b]  a local display that is only iterated / extended from
+        if isinstance(node.func, ast.Attribute) and node.func.attr == 'extend' and len(node.args) == 1 and \
+                isinstance(node.args[0], ast.Name) and node.args[0].id in getattr(self, 'local_seqs', {}) and \
+                not node.keywords:
+            self.changed = True
+            node.args = [copy.deepcopy(self.local_seqs[node.args[0].id])]
+            return node
         if isinstance(node.func, ast.Name) and node.func.id == 'getattr' and len(node.args) in (2, 3) and \
                 not node.keywords and isinstance(node.args[1], ast.Constant) and \
                 isinstance(node.args[1].value, str) and node.args[1].value.isidentifier():
